@@ -87,7 +87,7 @@ func drawRoot(r *core.Rand) cty.Value {
 }
 
 func (Driver) Run(c *core.Ctx) {
-	n := int64(c.N(5000, 80000))
+	n := int64(c.N(10000, 80000))
 	for i := int64(0); i < n; i++ {
 		if !c.Want(i) {
 			continue
